@@ -347,8 +347,55 @@ def b_identifiers(tier):
     return b
 
 
+_CHILD = r"""
+import json, os, sys, warnings
+warnings.simplefilter("ignore")
+repo = os.environ.get("VERIF_REPO")
+if repo:
+    sys.path.insert(0, repo)
+import pymbolic
+out = []
+for s in json.load(sys.stdin):
+    try:
+        out.append(["val", repr(pymbolic.parse(s))])
+    except Exception as e:
+        out.append(["exc", type(e).__name__])
+json.dump(out, sys.stdout)
+"""
+
+
+def b_optimised(tier):
+    """The parser under `python -O` (assert statements stripped) reads every string as it does in a normal interpreter."""
+    import json
+    import os
+    import subprocess
+    import sys
+    import pymbolic
+    b = BoundedRun("optimised-interpreter", rule="every literal, constant name, conditional, postfix and tuple string of the fixed lists, all operator pair skeletons over a, True, False, 7 "
+                   "and the malformed strings, parsed in a child interpreter started with -O: same tree (repr) or same error class as in this process",
+                   bound="~700 strings", functions=["Parser.parse_terminal", "Parser.parse_prefix", "Parser.parse_postfix"])
+    strs = ["True", "False", "a if True else b", "True if a else False", "not True", "True and False", "f(True, k=False)", "a[True]", "(True, False)", "True + 1", "-True",
+            "a if b else c", "f(a, k=b)", "v[a + 1]", "o.x", "a, b", "(a,)", "()", "[a, b]", "1.5e+2", "2 ** 3 ** 2", "not a == b", "a < b"] + list(MALFORMED)
+    for o1, o2 in itertools.product(BINOPS, repeat=2):
+        strs += [f"a {o1} True {o2} 7", f"False {o1} a {o2} b"]
+    r = subprocess.run([sys.executable, "-O", "-W", "ignore", "-c", _CHILD], input=json.dumps(strs), env=dict(os.environ), capture_output=True, text=True, timeout=300)
+    if r.returncode != 0:
+        b.case("child")
+        b.fail(Failure("optimised-interpreter", "what=child-failed", dict(kind="opt-child"), expected="a list of results", actual=(r.stderr or r.stdout)[-300:], functions=["Parser"]))
+        return b
+    got = json.loads(r.stdout)
+    for s_, g in zip(strs, got):
+        here = outcome.run(lambda: repr(pymbolic.parse(s_)))
+        here = ["val", here[1]] if here[0] == "val" else ["exc", here[1].__name__]
+        b.case(("opt", s_), sample=dict(string=s_))
+        if g != here:
+            b.fail(Failure("optimised-interpreter", f"what=differs-under-O string={s_!r}", dict(kind="opt", string=s_), expected=f"{here}"[:150], actual=f"{g}"[:150],
+                           functions=["Parser.parse_terminal"]))
+    return b
+
+
 def bounded(tier, seed, procs):
-    return [b_skeletons(tier, seed), b_ternary_postfix(tier, seed), b_random(tier, seed), b_malformed(tier), b_identifiers(tier)]
+    return [b_skeletons(tier, seed), b_ternary_postfix(tier, seed), b_random(tier, seed), b_malformed(tier), b_identifiers(tier), b_optimised(tier)]
 
 
 # ----------------------------------------------------------------------------- proved kernel: binding-power table
